@@ -29,6 +29,8 @@ VARIABLES
     subst      \* history (spec-only): blocks recorded as matched through a BlockFilters message whose block
                \* hash at that position is not the block the filter belongs to (known finding KF-C06-blockhash)
 
+ForeignBase == 100000
+
 fsVars == <<scripts, startOf, minF, mdb, mmem, cells, hist, txs, hdrs, nums, cpFinal, cached, pf, fetchH, fetchT, over, subst>>
 allVars == <<psVars, fsVars>>
 
@@ -359,6 +361,13 @@ RecvFilters(p, m) ==
                             THEN {m.hs[i] : i \in {j \in 1..Len(m.hs) : m.hs[j] # m.fs[j]}}
                                  \cap (UNION {{mdb'[i][3][j][1] : j \in 1..Len(mdb'[i][3])} : i \in 1..Len(mdb')})
                             ELSE {})
+                     \* KF-C06-foreign-branch: accepted filters that belong to blocks of another branch than the client's
+                     \* proven one (the peers that supplied the hashes moved on; filter hashes are not bound to the
+                     \* proven chain), remembered as ForeignBase + block
+                     \cup (IF minF' > minF /\ minF + 1 = m.start
+                           THEN {ForeignBase + m.fs[i] : i \in {j \in 1..Min(minF' - minF, Len(m.fs)) :
+                                     m.fs[j] >= 1 /\ m.fs[j] # AncAt(world, tip, m.start + j - 1)}}
+                           ELSE {})
 
 (***************************************************************************)
 (* SendBlocksProof for matched blocks (the fetch part is in module Fetch)  *)
@@ -610,6 +619,8 @@ MatchedAtRightHeight ==
     \A i \in 1..Len(mdb) : \A j \in 1..Len(mdb[i][3]) :
         LET b == mdb[i][3][j][1] IN
         \/ "KF-C06-blockhash" \in cfg.allow /\ b \in subst /\ b >= -1
+        \* KF-C06-foreign-branch: the block's filter was accepted for a height where the proven chain has another block
+        \/ "KF-C06-foreign-branch" \in cfg.allow /\ b >= 1 /\ (ForeignBase + b) \in subst
         \* KF-C04-spanning-record: the record was pending when the chain forked inside its range and was kept; its
         \* blocks of the abandoned branch are remembered (as -(b + 1)) in the history variable subst
         \/ /\ "KF-C04-spanning-record" \in cfg.allow /\ b >= 1 /\ (0 - b - 1) \in subst
@@ -617,6 +628,12 @@ MatchedAtRightHeight ==
         \/ /\ b >= 1
            /\ mdb[i][1] <= Num(world, b) /\ Num(world, b) < mdb[i][1] + mdb[i][2]
            /\ IsAnc(world, b, tip)
+
+\* C06/C03: every accepted filter belongs to the block the proven chain has at that height
+FiltersOfOwnChain ==
+    \A x \in subst : x >= ForeignBase =>
+        /\ "KF-C06-foreign-branch" \in cfg.allow
+        /\ (TLCGet(45) = 0 => TLCSet(45, 1) /\ PrintT(<<"KNOWN-FINDING", "KF-C06-foreign-branch", x - ForeignBase, tip>>))
 
 \* blocks whose filters have been processed but which are still waiting in a matched record
 Pending == UNION {{mdb[i][3][j][1] : j \in 1..Len(mdb[i][3])} : i \in 1..Len(mdb)}
@@ -664,7 +681,8 @@ FetchedTruthful ==
 IndexInv == CellsSound /\ HistOnCanon /\ ScriptsNumberHonest
 
 \* once a substituted block hash was accepted (KF-C06-blockhash) the rest of the scenario cannot be complete
-Tainted == \/ "KF-C06-blockhash" \in cfg.allow /\ \E x \in subst : x >= -1
+Tainted == \/ "KF-C06-blockhash" \in cfg.allow /\ \E x \in subst : x >= -1 /\ x < ForeignBase
+           \/ "KF-C06-foreign-branch" \in cfg.allow /\ \E x \in subst : x >= ForeignBase
            \/ "KF-C04-spanning-record" \in cfg.allow /\ \E x \in subst : x <= -2
 
 \* the blocks of the abandoned branch that stay in kept matched-block records when the tip changes branch
